@@ -186,7 +186,8 @@ class MonitoredList(MonitoredContainer, list):
         return list
 
     def extend(self, items):
-        for item in items:
+        # copy first: the items may be this list itself, or a one-shot iterator
+        for item in list(items):
             self._add_item(item)
 
     def append(self, item):
@@ -201,6 +202,9 @@ class MonitoredList(MonitoredContainer, list):
         super().append(item)
 
     def __setitem__(self, idx, value):
+        if isinstance(idx, slice):
+            # the values may come from a one-shot iterator, which recording them would exhaust
+            value = list(value)
         value = self._on_add(value)
         super().__setitem__(idx, value)
 
